@@ -103,9 +103,21 @@ _ECHO_ARGS = {
 # a directive that is legal at EVERY executable location (so that repeating it breaks one rule only)
 TAG_DIRECTIVE = "directive @tag(n: Int) on QUERY | MUTATION | SUBSCRIPTION | FIELD | FRAGMENT_DEFINITION | FRAGMENT_SPREAD | INLINE_FRAGMENT | VARIABLE_DEFINITION"
 
+# one directive per executable location (C06: directive x placement matrix)
+DIRECTIVE_LOCATIONS = [
+    ("onQuery", "QUERY"),
+    ("onMutation", "MUTATION"),
+    ("onSubscription", "SUBSCRIPTION"),
+    ("onField", "FIELD"),
+    ("onFragDef", "FRAGMENT_DEFINITION"),
+    ("onSpread", "FRAGMENT_SPREAD"),
+    ("onInline", "INLINE_FRAGMENT"),
+    ("onVarDef", "VARIABLE_DEFINITION"),
+]
+
 SCHEMA_C = {
     "name": "C",
-    "directives": [TAG_DIRECTIVE],
+    "directives": [TAG_DIRECTIVE] + ["directive @%s on %s" % (n, loc) for n, loc in DIRECTIVE_LOCATIONS],
     "query": "Q",
     "mutation": "M",
     "subscription": "Sub",
